@@ -37,12 +37,21 @@ def points(tier):
     for lat in (np.pi / 2 - 1e-7, -np.pi / 2 + 1e-7, 1.2, -1.2, 0.0):
         for lon in (0.0, 1e-9, 2 * np.pi - 1e-9, np.pi, 3 * np.pi / 2, np.pi / 2):
             out.append(("edge", lon, lat))
+    # longitudes a hair below zero (lon % 2 pi rounds to exactly 2 pi), denormal and signed-zero values
+    for lat in (0.3, -1.0, np.pi / 2 - np.radians(2.0)):
+        for lon in (-1e-17, -1e-300, float(np.nextafter(0.0, -1.0)), -4.4e-16, -0.0, 5e-324, 2 * np.pi - 4.4e-16, float(np.nextafter(2 * np.pi, 0.0))):
+            out.append(("edge", lon, lat))
+    # within 1e-6 .. 1e-9 radian of a pole but not on it (the longitude still matters)
+    for dl in (1e-6, 3e-7, 1e-8, 1e-9):
+        for sgn in (1, -1):
+            for lon in (0.7, 2.3, 3.9, 5.5):
+                out.append(("nearpole-tile", lon, sgn * (np.pi / 2 - dl)))
     # just outside the 1-degree polar caps, close to the meridians where four level-1 tiles meet (the pixel
     # search is most anisotropic there)
-    for dlat in (1.01, 1.03, 1.1, 1.2, 1.35, 1.52, 2.0, 3.0):
+    for dlat in ((1.01, 1.03, 1.1, 1.2, 1.35, 1.52, 2.0, 3.0) if tier == "thorough" else (1.01, 1.1, 1.35, 1.52, 3.0)):
         for sgn in (1, -1):
             for k in range(4):
-                for off in (-0.05, -0.02, -0.005, 0.005, 0.02, 0.04):
+                for off in ((-0.05, -0.02, -0.005, 0.005, 0.02, 0.04) if tier == "thorough" else (-0.02, -0.005, 0.005, 0.04)):
                     out.append(("nearpole", (k * np.pi / 2 + off) % (2 * np.pi), sgn * (np.pi / 2 - np.radians(dlat))))
     return out
 
@@ -181,6 +190,10 @@ def _work(job):
         else:
             pd = pix if sel in (0, 2) else [3]
         deep = ((14, 23) if sel == 1 else (20, 24)) if (tier == "thorough" or sel in (1, 3)) else ()
+        if kind == "nearpole-tile":
+            # tile clause only, down to the depth where a tile is still wider than the distance to the pole
+            check_point(kind, lon, lat, [3, 6], [], planetary, part, (12, 18, 22))
+            continue
         if kind == "nearpole":
             check_point(kind, lon, lat, [3], [2, 3, 4] if (tier == "thorough" or sel != 3) else [3], planetary, part, ())
             continue
@@ -194,7 +207,7 @@ def run(tier, seed):
     rep = Report(PROP, tier, seed, "exploration")
     rep.rule = (
         "every vertex of the level-%d TOAST lattice (corners, edge midpoints, centres of coarser tiles: edges, diamond, seam, poles) + a 24x13 "
-        "grid + near-pole/seam points + 384 points 1-3 degrees from the poles near the quadrant meridians (pixel clause at depths 2-4), each at 4 longitude shifts, depths 0..%d, both coordinate systems; pixel clause at depths 1,3,6 for "
+        "grid + near-pole/seam points + 160 (384) points 1-3 degrees from the poles near the quadrant meridians (pixel clause at depths 2-4), each at 4 longitude shifts, depths 0..%d, both coordinate systems; pixel clause at depths 1,3,6 for "
         "points >= 1 degree from the poles; deep descents to depth 14/23 or 20/24 for half of the points (containment to 1e-3 tile widths plus the double-precision resolution 8 ulp / width of a tile side); non-trivial = lattice/edge point or shifted longitude"
         % (4 if tier == "quick" else 6, 6 if tier == "quick" else 8)
     )
